@@ -189,7 +189,41 @@ pub fn replay_case(case: &Value, tally: &mut Tally) {
         json!([bv.len(), bv.count_ones(), bv.count_zeros(), bv.one_iter().count(), bv.zero_iter().count()])
     });
     tally.check(hkey(&[hist_key, 3]), true, &|| ctx(99, "as a plain bitvector: len, count_ones, count_zeros, items of one_iter and zero_iter"), &json!([blen, bones, blen - bones, bones, blen - bones]), &as_bv);
+    if ABUSE.with(|a| a.get()) { abuse(&obj, tally); }
     if case["steps"].as_array().unwrap().len() >= 2 { tally.sample(json!({"init": init, "calls": case["steps"].as_array().unwrap().iter().map(|s| s["c"].clone()).collect::<Vec<Value>>()})); }
+}
+
+thread_local! { pub static ABUSE: std::cell::Cell<bool> = std::cell::Cell::new(false); }
+
+/// C08 only: writes with indexes outside the vector (documented as "may panic") through the SAFE functions (set_bit,
+/// IntVector::set; set_int is an unsafe fn), then the vector is used as a plain bitvector.  Whatever the calls return,
+/// nothing may be read or written outside the buffers (the hooks decide).
+fn abuse(obj: &AnyVec, tally: &mut Tally) {
+    use simple_sds::ops::{PredSucc, Rank, Select, SelectZero};
+    let raw0 = match obj { AnyVec::Int(v) => RawVector::from(v.clone()), AnyVec::Raw(r) => r.clone() };
+    let len = raw0.len();
+    let mut variants: Vec<RawVector> = Vec::new();
+    for k in [0usize, 1, 2, 7, 62, 63, 64, 65, 130] {
+        let mut r = raw0.clone();
+        if guarded(|| r.set_bit(len + k, true)).is_ok() { variants.push(r); }
+    }
+    if let AnyVec::Int(v) = obj {
+        for k in [0usize, 1, 2, 5] {
+            let mut x = v.clone();
+            if guarded(|| x.set(v.len() + k, u64::MAX)).is_ok() { variants.push(RawVector::from(x)); }
+        }
+    }
+    for r in variants {
+        let _ = guarded(|| {
+            let mut bv = simple_sds::bit_vector::BitVector::from(r);
+            let a = bv.one_iter().take(300).count() + bv.zero_iter().take(300).count();
+            bv.enable_rank(); bv.enable_select(); bv.enable_select_zero();
+            let b = (0..8).map(|i| bv.select(i).unwrap_or(0) + bv.select_zero(i).unwrap_or(0) + bv.rank(i * 9)).sum::<usize>();
+            let c = bv.predecessor(len + 70).next().is_some() as usize + bv.successor(0).next().is_some() as usize;
+            a + b + c
+        });
+        tally.evals += 1;
+    }
 }
 
 //-----------------------------------------------------------------------------
